@@ -1,5 +1,6 @@
 import Ekit.Props.C08
 import Ekit.Props.C08HW
+import Ekit.Props.C08Heap
 open Ekit.DelayQ
 #print axioms c08_skel_DelayQueue_Dequeue
 #print axioms c08_skel_DelayQueue_Enqueue
@@ -22,3 +23,27 @@ open Ekit.DelayQ
 #print axioms c08_linearizable_timed
 -- the same statements in the classical Herlihy–Wing form (Ekit/Conc/HerlihyWing*.lean)
 #print axioms Ekit.Props.HWForms.c08_hw_linearizable_timed
+-- composition with the C05 heap model (Ekit/Props/C08Heap.lean)
+open Ekit.DelayQ
+-- C08 ∘ C05: the DelayQueue model's heap interface discharged by the heap model (to be merged into Audit/C08.lean)
+#print axioms delayCmp_lawful
+#print axioms delayCmp_now
+#print axioms delayCmp_le
+#print axioms c08_heap_peek
+#print axioms c08_heap_dequeue
+#print axioms c08_heap_enqueue
+#print axioms c08_heap_no_panic
+#print axioms c08_heap_len_le_cap
+#print axioms coupled_init
+#print axioms new_cap
+#print axioms c08_heap_step_sim
+#print axioms c08_heap_run_projects
+#print axioms c08_heap_reachable
+#print axioms c08_heap_never_refuses
+#print axioms c08_heap_linearizable_timed
+#print axioms c08_heap_bounded_len_le_cap
+#print axioms c08_heap_pop_expired_earliest
+#print axioms Ekit.Heap.unpair_pair
+#print axioms Ekit.Heap.zag_zig
+-- the classical Herlihy–Wing form
+#print axioms Ekit.Props.HWForms.c08_heap_hw_linearizable_timed
